@@ -333,6 +333,8 @@ func init() {
 		reg(n, "result is an opaque value; no effect on verified state; does not panic (A-LOG/A-STD)", noEffect(""))
 	}
 	reg("errors.Is", "opaque boolean", noEffect(""))
+	reg("golang.org/x/exp/slices.Contains", "opaque boolean; no effect on verified state; does not panic", noEffect(""))
+	reg("slices.Contains", "opaque boolean; no effect on verified state; does not panic", noEffect(""))
 	for _, n := range []string{"strings.Contains", "strings.EqualFold", "strings.HasPrefix", "strings.IndexByte", "strings.Trim", "strings.TrimPrefix", "strings.TrimSuffix", "strings.TrimSpace", "strings.ReplaceAll", "strings.Repeat"} {
 		n := n
 		reg(n, "a function of its arguments (uninterpreted)", func(e *Exec, st *State, fr *Frame, site ssa.Instruction, args []Val, k contFn) bool {
